@@ -329,6 +329,32 @@ def run(ctx):
                     ('EOMONTH', d.day >= 29, k < 0, moved.month == 2,
                      is_leap(moved.year)))
 
+    # ... the last months of the range (year 9999): the end of December 9999
+    # is the last serial there is, and it is reached from every distance
+    if ctx.shard in (2, 3) or thorough:
+        last = serial_of(datetime.date(9999, 12, 31))
+        for n, k in ([(last - j, 0) for j in (0, 1, 15, 30)]
+                     + [(serial_of(datetime.date(9999, 11, 30)), 1),
+                        (serial_of(datetime.date(9999, 6, 30)), 6),
+                        (serial_of(datetime.date(9998, 11, 30)), 13),
+                        (serial_of(datetime.date(9999, 1, 31)), 11),
+                        (serial_of(datetime.date(9000, 12, 15)), 999 * 12),
+                        (serial_of(datetime.date(2024, 2, 29)), 7975 * 12
+                         + 10)]):
+            d = date_of(n)
+            moved = add_months(d, k)
+            ctx.event('end_of_range_month_moves')
+            R.check('EDATE', (n, k), serial_of(moved), 'month_move_calls',
+                    ('EDATE-9999', n, k))
+            R.check('EOMONTH', (n, k), last, 'month_move_calls',
+                    ('EOMONTH-9999', n, k))
+        for n, k in ((serial_of(datetime.date(9999, 11, 30)), 0),
+                     (serial_of(datetime.date(9999, 12, 1)), -1),
+                     (serial_of(datetime.date(9999, 10, 31)), 1)):
+            R.check('EOMONTH', (n, k), serial_of(datetime.date(9999, 11, 30)),
+                    'month_move_calls', ('EOMONTH-9999-11', n, k))
+            ctx.event('end_of_range_month_moves')
+
     # ---- January and February 1900 (serials 1..59, next to the serial 60 that
     # no calendar date has): differences of dates are differences of their
     # serials; YEARFRAC accepts 1900-01-01 -------------------------------------
